@@ -1639,6 +1639,16 @@ func writeAccess(w *accWalker, outDir string, nEntries int) error {
 	named("loc_shard_index", "Shard.index")
 	named("loc_db_active_file", "DB.activeFile")
 	named("loc_db_older_files", "DB.olderFiles")
+	named("loc_db_header_scratch", "DB.logRecordHeader")
+	named("loc_db_hint_scratch", "DB.hintPos")
+	// every field of the sharded index structure itself (the shard table, the lock table, the shard count)
+	var sh []string
+	for i, l := range locs {
+		if strings.HasPrefix(l, "ShardedIndex.") {
+			sh = append(sh, fmt.Sprint(i))
+		}
+	}
+	fmt.Fprintf(&sb, "Definition locs_sharded_index_fields : list nat := [%s].\n", strings.Join(sh, "; "))
 	fmt.Fprintf(&sb, "Definition gen_access_count : nat := %d.\n", len(recs))
 	fmt.Fprintf(&sb, "Definition gen_write_count : nat := %d.\n", writes)
 	fmt.Fprintf(&sb, "Definition gen_entry_count : nat := %d.\n", nEntries)
